@@ -326,6 +326,8 @@ def fault_run(cfg, rng_seed, clock_s, src_prefix, fault, *, write_stages=True, g
             out = os.path.join(d, "out.fits") if give_output else None
             audit = []
             active = [True]
+            io = {"n": 0, "fired": None}
+            io_at = fault.get("write_no") if fault and fault.get("kind") == "ioerr" else None
 
             def hook(event, args):
                 if not active[0]:
@@ -337,19 +339,49 @@ def fault_run(cfg, rng_seed, clock_s, src_prefix, fault, *, write_stages=True, g
                     )
                     if wr:
                         audit.append(["open", str(path)])
+                        sp = str(path)
+                        if io_at is not None and sp.startswith(d) and os.sep + "side" + os.sep not in sp:
+                            # the disk refuses the io_at-th file the run opens for writing
+                            io["n"] += 1
+                            if io["n"] == io_at and io["fired"] is None:
+                                import errno
+
+                                io["fired"] = {"write_no": io["n"], "path": os.path.basename(sp), "k": tracer_box[0].k if tracer_box[0] else None,
+                                               "in_stage": bool(tracer_box[0] and tracer_box[0].stage_frame is not None)}
+                                raise OSError(errno.ENOSPC, "No space left on device (injected)")
                 elif event in ("os.remove", "os.rename", "os.mkdir", "shutil.move", "os.truncate"):
                     audit.append([event, str(args[0])])
 
             sys.addaudithook(hook)
-            status, table, tr = _compute_call(
-                cfg, rng_seed, clock_s, out, write_stages,
-                lambda box: StageTracer(src_prefix, box, out or os.path.join(d, "out.fits"), fault=fault, report_fd=wfd, trace_fits=trace_fits),
-            )
+            tracer_box = [None]
+            io_mode = io_at is not None
+
+            def make_tracer(box):
+                if io_mode:
+                    active[0] = False  # the harness's own side directory is not the run's doing
+                    os.makedirs(os.path.join(d, "side"), exist_ok=True)
+                    active[0] = True
+                t = StageTracer(src_prefix, box, out or os.path.join(d, "out.fits"), fault=None if io_mode else fault, report_fd=wfd,
+                                trace_fits=trace_fits, snapshot=io_mode, side_dir=os.path.join(d, "side"))
+                tracer_box[0] = t
+                return t
+
+            status, table, tr = _compute_call(cfg, rng_seed, clock_s, out, write_stages, make_tracer)
             active[0] = False
             rep = {"status": status, "k_final": tr.k, "steps": tr.steps, "fired": tr.fired, "audit": audit[:50], "rows": None}
+            if io_mode:
+                rep["io"] = io["fired"]
+                rep["io_writes_seen"] = io["n"]
+                # boundaries this run itself completed after the disk error: file vs its own table
+                bad = None
+                for kk in range(1, tr.k + 1):
+                    if tr.snaps[kk] != tr.sides[kk] and describe_diff(tr.snaps[kk], tr.sides[kk]):
+                        bad = [kk, describe_diff(tr.snaps[kk], tr.sides[kk])]
+                        break
+                rep["boundary_mismatch"] = bad
             if status == "returned" and table is not None:
                 rep["rows"] = len(table)
-                os.mkdir(os.path.join(d, "side"))
+                os.makedirs(os.path.join(d, "side"), exist_ok=True)
                 table.write(os.path.join(d, "side", "final.fits"), format="fits", overwrite=True)
             os.write(wfd, (json.dumps(rep) + "\n").encode())
             code = 0
